@@ -209,7 +209,9 @@ class List(list, base.Symbolic, pg_typing.CustomTyping):
     # NOTE(daiyip): We set onchange callback at the end of init to avoid
     # triggering during initialization.
     self._onchange_callback = onchange_callback
-    self.seal(sealed)
+    if sealed:
+      # NOTE: members that arrive sealed stay sealed when `sealed` is False.
+      self.seal(True)
 
   @property
   def max_size(self) -> Optional[int]:
